@@ -10,8 +10,8 @@ import impl_hist  # noqa: F401
 from framework import Case, Finding
 
 PROP = "C09"
-GENERATED = ['SharedState', 'SrcHints', 'SrcDecorate', 'SrcExpand', 'HintLoop', 'Core', 'Wrapper', 'Classes', 'Decorate', 'DtypeTables', 'ClassDecor']  # generated files this check's tie depends on
-LEAN_MODULES = ["Properties.C09", "Properties.Prov.Hints", "Properties.Prov.Decorate", "Properties.Prov.Expand", "Properties.CoreHints", "Properties.Core", "Properties.CoreWrap", "Properties.CoreClasses", "Properties.CoreDecorate", "Properties.CoreClassDecor"]
+GENERATED = ['SharedState', 'SrcHints', 'SrcDecorate', 'SrcExpand', 'HintLoop', 'Core', 'Wrapper', 'Classes', 'Decorate', 'DtypeTables', 'ClassDecor', 'Resolve']  # generated files this check's tie depends on
+LEAN_MODULES = ["Properties.C09", "Properties.Prov.Hints", "Properties.Prov.Decorate", "Properties.Prov.Expand", "Properties.CoreHints", "Properties.Core", "Properties.CoreWrap", "Properties.CoreClasses", "Properties.CoreDecorate", "Properties.CoreClassDecor", "Properties.CoreResolve"]
 RULE = (
     "corpus (F8, F9 witnesses) first; seeded histories (length 12 quick / 40 thorough) over a family of <=6 functions sharing 2-3 annotation "
     "aliases and 3 providers (fresh dict per call, one long-lived dict, not a provider): decorations interleaved with accepted and rejected "
